@@ -131,7 +131,7 @@ def run(run):
                 wa, wb, wd = xe.wname(w[0]), xe.wname(w[1]), xe.wname(w[3])
                 na, nb, nd = xe.wname(nx[0]), xe.wname(nx[1]), xe.wname(nx[3])
                 for (cur, nxt, Q) in ((wa, na, An), (wb, nb, Bn), (wd, nd, Dn)):
-                    q.add(q.lin_zero({nxt: 1, cur: -4, Q: -1}))
+                    q.add(q.lin_zero({nxt: 1, cur: -4, Q: -1}, positive=True))
                 q.add(f"(= {q.var(xe.wname(w[2]))} {prodtable(A, B)})")
                 q.add(f"(= {D} {optable(op, A, B)})")
                 goal = [f"(= {q.var(na)} (+ (* 4 {q.var(wa)}) {A}))",
